@@ -496,6 +496,7 @@ func buildEvidence(id, tier string, seed int, rs []*sym.HarnessResult, docs map[
 			"solver_s": round2(r.SolveTime.Seconds()), "wall_s": round2(r.Wall.Seconds()), "path_ends": r.PathEnds,
 			"reach_witnessed": labels, "instructions": r.Steps, "feasibility_unknown": r.FeasUnknown,
 			"known_findings_hit": len(r.KnownHits), "violations": len(r.Violations) + len(r.BudgetPaths),
+			"write_set_recorder_regions": r.IsoCalls, "write_set_recorder_max_cells_watched": r.IsoCells,
 		})
 	}
 	if len(samples) == 0 {
@@ -617,11 +618,19 @@ func pkgNameOf(src string) string {
 }
 
 // build compiles the replay test binary for one harness package.
-func (rp *replayer) build(rel string) (string, error) {
+func (rp *replayer) build(rel string) (string, error) { return rp.buildMode(rel, false) }
+
+// buildMode builds the package's replay test binary, optionally with the race detector (used to confirm
+// "shared-write" reports natively).
+func (rp *replayer) buildMode(rel string, race bool) (string, error) {
 	if rp.bins == nil {
 		rp.bins = map[string]string{}
 	}
-	if b, ok := rp.bins[rel]; ok {
+	key := rel
+	if race {
+		key += "#race"
+	}
+	if b, ok := rp.bins[key]; ok {
 		return b, nil
 	}
 	ov := map[string]string{filepath.Join(sym.RepoDir, "go/internal/vh/vh.go"): filepath.Join(sym.HarnessDir, "vh/vh.go"),
@@ -656,24 +665,28 @@ func (rp *replayer) build(rel string) (string, error) {
 	ovJSON, _ := json.Marshal(map[string]interface{}{"Replace": ov})
 	ovPath := filepath.Join(rp.work, strings.ReplaceAll(rel, "/", "_")+"_overlay.json")
 	os.WriteFile(ovPath, ovJSON, 0o644)
-	bin := filepath.Join(rp.work, strings.ReplaceAll(rel, "/", "_")+".test")
-	cmd := exec.Command("go", "test", "-tags=verif", "-vet=off", "-c", "-o", bin, "-overlay", ovPath, "./"+rel)
+	bin := filepath.Join(rp.work, strings.ReplaceAll(key, "/", "_")+".test")
+	args := []string{"test", "-tags=verif", "-vet=off", "-c", "-o", bin, "-overlay", ovPath}
+	if race {
+		args = append(args, "-race")
+	}
+	cmd := exec.Command("go", append(args, "./"+rel)...)
 	cmd.Dir = sym.RepoDir
 	cmd.Env = append(os.Environ(), "GOFLAGS=-mod=mod", "GOPROXY=off", "GOSUMDB=off", "GOTOOLCHAIN=local")
 	out, err := cmd.CombinedOutput()
 	if err != nil {
 		return "", fmt.Errorf("go test -c failed: %v\n%s", err, tail(string(out), 2000))
 	}
-	rp.bins[rel] = bin
+	rp.bins[key] = bin
 	return bin, nil
 }
 
 func (rp *replayer) replay(rel string, v sym.Violation, path string) (string, bool, error) {
 	rfile := map[string]interface{}{
 		"property_harness": v.Harness, "package": rel, "kind": v.Kind, "assertion": v.Label, "site": v.Site,
-		"model": v.Model, "choices": v.Choices, "decisions": v.Decisions, "tier": rp.tier, "known": rp.active,
+		"model": v.Model, "choices": v.Choices, "decisions": v.Decisions, "tier": rp.tier, "known": rp.active, "detail": v.Detail,
 	}
-	bin, err := rp.build(rel)
+	bin, err := rp.buildMode(rel, v.Kind == "shared-write")
 	if err != nil {
 		b, _ := json.MarshalIndent(rfile, "", " ")
 		os.WriteFile(path, b, 0o644)
@@ -684,6 +697,10 @@ func (rp *replayer) replay(rel string, v sym.Violation, path string) (string, bo
 	cmd := exec.Command(bin, "-test.run", "^TestVHReplay$", "-test.count=1")
 	cmd.Dir = filepath.Join(sym.RepoDir, rel)
 	cmd.Env = append(os.Environ(), "VH_MODEL="+path, "VH_HARNESS="+v.Harness, "GOMEMLIMIT=4GiB")
+	if v.Kind == "shared-write" {
+		// two goroutines run the isolated region at once under the race detector
+		cmd.Env = append(cmd.Env, "VH_RACE=1", "GORACE=halt_on_error=0")
+	}
 	var buf bytes.Buffer
 	cmd.Stdout = &buf
 	cmd.Stderr = &buf
@@ -708,6 +725,8 @@ func (rp *replayer) replay(rel string, v sym.Violation, path string) (string, bo
 		reproduced = strings.Contains(out, "VH-TIMEOUT")
 	case "alloc":
 		reproduced = strings.Contains(out, "VH-PANIC") || strings.Contains(out, "fatal error:") || strings.Contains(out, "VH-ALLOC")
+	case "shared-write":
+		reproduced = strings.Contains(out, "WARNING: DATA RACE")
 	}
 	rfile["native"] = map[string]interface{}{"cmd": "VH_MODEL=<this file> VH_HARNESS=" + v.Harness + " <pkg>.test -test.run ^TestVHReplay$", "reproduced": reproduced, "output_tail": tail(out, 1500)}
 	b, _ = json.MarshalIndent(rfile, "", " ")
